@@ -149,14 +149,17 @@ Proof. exact oversize_no_body_buffer_proof. Qed.
 Print Assumptions oversize_no_body_buffer.
 
 (* ---------- the writer side ---------- *)
-(* whatever the point at which the writer fails, the wire carries a prefix of the proper stream *)
-Theorem writer_wire : forall ms room, wire_of write_delimited ms room = wire_spec ms room.
-Proof. exact writer_wire_proof. Qed.
+(* whatever the point at which the writer fails, the wire carries exactly the first `room` bytes of the
+   proper stream and nothing behind the failure point - for the writer that keeps failing (heals = false)
+   AND for the one that fails once and then accepts everything again (heals = true), which would have
+   taken whatever the encoder went on to write *)
+Theorem writer_wire : forall heals ms room, wire_of_h heals write_delimited ms room = wire_spec ms room.
+Proof. exact writer_wire_h_proof. Qed.
 Print Assumptions writer_wire.
 
 (* an error is reported iff something did not fit; every Encode reported successful is on the wire in full *)
-Theorem writer_reports : forall ms room n failed k,
-  write_stream write_delimited ms (sink_of room) = (n, failed, k) ->
+Theorem writer_reports : forall heals ms room n failed k,
+  write_stream write_delimited ms (sink_of_h heals room) = (n, failed, k) ->
   failed = failed_spec room (length (write_all ms)) /\
   (n <= length ms)%nat /\ (failed = false -> n = length ms) /\
   match room with None => True | Some r => (length (write_all (firstn n ms)) <= r)%nat end.
@@ -248,9 +251,15 @@ Proof.
   do 8 (destruct k as [|k]; [reflexivity|]). exfalso. lia.
 Qed.
 Example ex_writer_fails_mid_body :
-  write_stream write_delimited [[1; 2]; [3; 4; 5]] (sink_of (Some 12%nat)) = (1%nat, true, mk_sink [0; 0; 0; 2; 1; 2; 0; 0; 0; 3; 3; 4] (Some 0%nat)) /\
+  write_stream write_delimited [[1; 2]; [3; 4; 5]] (sink_of (Some 12%nat)) = (1%nat, true, mk_sink [0; 0; 0; 2; 1; 2; 0; 0; 0; 3; 3; 4] (Some 0%nat) false) /\
   read_all 16 (mk_src (wire_of write_delimited [[1; 2]; [3; 4; 5]] (Some 12%nat)) [5; 5]%nat true TEOF) = ([[1; 2]], FErr MUnexpected 0) /\
   read_all 16 (mk_src (wire_of write_delimited [[1; 2]; [3; 4; 5]] (Some 6%nat)) [5; 5]%nat true TEOF) = ([[1; 2]], FErr MEOF 0).
+Proof. vm_compute. auto. Qed.
+(* a writer that fails once inside the second prefix and then heals: the data of that message is not
+   written behind the failure point, the error is reported, and the healed state is what is left *)
+Example ex_writer_heals_nothing_after_failure :
+  write_stream write_delimited [[1; 2]; [3; 4; 5]] (sink_of_h true (Some 7%nat)) = (1%nat, true, mk_sink [0; 0; 0; 2; 1; 2; 0] None true) /\
+  sink_write [3; 4; 5] (mk_sink [0; 0; 0; 2; 1; 2; 0] None true) = WOk (mk_sink [0; 0; 0; 2; 1; 2; 0; 3; 4; 5] None true).
 Proof. vm_compute. auto. Qed.
 Example ex_json_cut :
   json_all jscan (mk_src (bs "{}" ++ [10] ++ bs "{""a""") [3]%nat false TEOF) = ([bs "{}"], JFErr MUnexpected) /\
@@ -258,7 +267,7 @@ Example ex_json_cut :
   json_all jscan (mk_src (bs "{}" ++ [10] ++ bs "[]") [1; 1]%nat true TEOF) = ([bs "{}"; bs "[]"], JFErr MEOF).
 Proof. vm_compute. auto. Qed.
 Example ex_json_newline_error_dropped :
-  write_stream json_encode [bs "{}"; bs "[]"] (sink_of (Some 2%nat)) = (1%nat, true, mk_sink (bs "{}") (Some 0%nat)).
+  write_stream json_encode [bs "{}"; bs "[]"] (sink_of (Some 2%nat)) = (1%nat, true, mk_sink (bs "{}") (Some 0%nat) false).
 Proof. vm_compute. reflexivity. Qed.
 Example ex_starts_nonspace : starts_nonspace (bs "{}").
 Proof. exists 123, [125]. split; reflexivity. Qed.
